@@ -148,6 +148,25 @@ def clause(facts, rep, tier, rule='E5.number-value', every=1):
                     if kind != 'Double' or not isinstance(val, float) or val != want or (str(val)[0] == '-') != (t[0] == '-'):
                         bad = 'the number %s is delivered as %s(%r); the correctly rounded double is %r' % (t, kind, val, want)
                         break
+            # a leading zero ends the integer part: the number is the zero alone (the caller then meets the next digit as
+            # a trailing character) - it must not be read as the start of a longer number
+            if bad is None:
+                for t, plen in (('01', 1), ('00', 1), ('0123', 1), ('-01', 2), ('-007', 2), ('09.5', 1), ('01e5', 1), ('00.5', 1), ('-00', 2)):
+                    buf = t.encode() + b'x"x' + b'\0' * 64
+                    mem = {base + i: b for i, b in enumerate(buf)}
+                    it = vm.make(fn, mem, [])
+                    del events[:]
+                    try:
+                        r, env, members, _ = it.run({fn.params[0]['id']: 'SAX'}, {'json_buf_': base, 'len_': len(t), 'pos_': 1, 'err_': 0})
+                    except UndefinedBehaviour as ex:
+                        bad = 'number text %s: undefined behaviour: %s' % (t, ex)
+                        break
+                    n += 1
+                    if members.get('err_'):
+                        continue            # rejecting it outright is fine too
+                    if members.get('pos_') != plen or len(events) != 1 or events[0][1] != 0:
+                        bad = 'the text %s (a zero followed by a digit) is read as %s up to offset %s; a leading zero must end the number (offset %d, value 0)' % (t, events, members.get('pos_'), plen)
+                        break
             # texts that are NOT numbers where a digit is required: an error, never a value
             if bad is None:
                 for t in ('-', '-a', '-.5', '1.', '1.e5', '1.x', '1e', '1e+', '1E-', '1e+x', '-1.', '0.', '0.e1', '0e', '-0e-', '12345678901234567890.', '1.5e', '123456789012345678901234e+'):
